@@ -12,7 +12,7 @@ usage: eval_seeds.py setup | eval_seeds.py run <id>[:k] ... [--checks C01,C02,..
 """
 import json, os, shutil, subprocess, sys, time, re
 
-EV = "/tmp/ev"
+EV = os.environ.get("EV_DIR", "/tmp/ev")
 SEEDS = os.environ.get("SEEDS_DIR", "/tmp/seeds")
 TAG = os.environ.get("SEEDS_TAG", "")  # e.g. "r2-" for the second round
 REPO = f"{EV}/repo"
@@ -78,7 +78,11 @@ def eval_seed(pid, k, checks):
         meta["status"] = "patch does not apply"; meta["log"] = out[-500:]; return meta
     touched = sh("git diff --name-only", cwd=REPO)[1].split()
     meta["files"] = touched
-    bevy = any(t.startswith("bevy/") for t in touched) or pid in ("C18", "C19")
+    bevy_demo = pid in ("C18", "C19") or "bevy" in open(demo).read()
+    aimed = f"{sdir}/prop{k}.txt"
+    if os.path.exists(aimed):
+        meta["aimed_at"] = open(aimed).read().strip()[:200]
+    bevy = any(t.startswith("bevy/") for t in touched) or bevy_demo
     pk = "-p mina -p mina_core -p mina_macros" + (" -p bevy_mina" if bevy else "")
     rc, out = sh(f"cargo test --offline --no-fail-fast {pk} 2>&1 | tail -40", cwd=REPO)
     ok_tests = rc == 0 and "FAILED" not in out and "error" not in out.lower().split("warning")[0]
@@ -87,11 +91,11 @@ def eval_seed(pid, k, checks):
     if not bevy:
         rcb, outb = sh("cargo check --offline -p bevy_mina 2>&1 | tail -5", cwd=REPO)
         meta["bevy_compiles"] = "error" not in outb
-    demo_dir = f"{REPO}/bevy/tests" if pid in ("C18", "C19") else f"{REPO}/tests"
+    demo_dir = f"{REPO}/bevy/tests" if bevy_demo else f"{REPO}/tests"
     os.makedirs(demo_dir, exist_ok=True)
     demo_dst = f"{demo_dir}/zz_demo_seed.rs"
     shutil.copy(demo, demo_dst)
-    dpk = "-p bevy_mina" if pid in ("C18", "C19") else "-p mina"
+    dpk = "-p bevy_mina" if bevy_demo else "-p mina"
     rc, out = sh(f"cargo test --offline {dpk} --test zz_demo_seed 2>&1 | tail -15", cwd=REPO)
     meta["demo_with_patch_fails"] = rc != 0 and ("FAILED" in out or "panicked" in out or "error" in out)
     meta["demo_with_patch_tail"] = out[-400:]
@@ -116,6 +120,36 @@ def eval_seed(pid, k, checks):
     meta["status"] = "confirmed" if meta["confirmed"] else "NOT confirmed"
     return meta
 
+def eval_benign(bid, k):
+    """A change that is claimed to PRESERVE every property: all checks must stay silent (exit 0)."""
+    sdir = f"{SEEDS}/{bid}"
+    patch = f"{sdir}/patch{k}.diff"
+    meta = {"kind": "benign", "id": bid, "k": k, "patch": patch, "at": time.strftime("%Y-%m-%dT%H:%M:%S"), "repo_head": sh("git rev-parse --short HEAD", cwd=REPO)[1].strip()}
+    if not os.path.exists(patch):
+        meta["status"] = "missing files"; return meta
+    sh("git checkout -q -- . && git clean -qfd", cwd=REPO)
+    rc, out = sh(f"git apply {patch}", cwd=REPO)
+    if rc != 0:
+        meta["status"] = "patch does not apply"; meta["log"] = out[-500:]; return meta
+    touched = sh("git diff --name-only", cwd=REPO)[1].split()
+    meta["files"] = touched
+    rc, out = sh("cargo test --offline --no-fail-fast -p mina -p mina_core -p mina_macros -p bevy_mina 2>&1 | tail -40", cwd=REPO)
+    results = re.findall(r"test result: (\w+)\. (\d+) passed; (\d+) failed", out)
+    meta["existing_tests_with_patch"] = {"ok": all(r[0] == "ok" for r in results) and len(results) > 0, "results": results}
+    claimed = [x["property_id"] for x in json.load(open("/verif/MANIFEST.json"))["checks"]]
+    res = {}
+    for c in claimed:
+        t0 = time.time()
+        p = subprocess.run(["bash", "-c", f"./run {c} quick 2>&1"], cwd=VERIF, env=dict(os.environ, CARGO_NET_OFFLINE="true", VERIF_ROOT=VERIF), stdout=subprocess.PIPE, stderr=subprocess.STDOUT, text=True)
+        o = p.stdout
+        res[c] = {"exit": p.returncode, "violation": "VIOLATION" in o, "notes": [l[:300] for l in o.split("\n") if l.startswith("NOTE") or "BUILD-FAILED" in l or l.startswith("HEALTH")][:4], "detail": next((l.strip()[:900] for l in o.split("\n") if "detail=" in l), ""), "secs": round(time.time() - t0, 1)}
+    meta["checks"] = res
+    meta["alarms"] = [c for c in claimed if res[c]["violation"]]
+    meta["nonzero_exit"] = [c for c in claimed if res[c]["exit"] != 0]
+    sh("git checkout -q -- . && git clean -qfd", cwd=REPO)
+    meta["status"] = "silent" if not meta["nonzero_exit"] else "ALARM/nonzero"
+    return meta
+
 def main():
     if len(sys.argv) < 2:
         print(__doc__); return 2
@@ -123,6 +157,24 @@ def main():
         return setup()
     if sys.argv[1] == "sync":
         sync_verif(); return 0
+    if sys.argv[1] == "benign":
+        for a in sys.argv[2:]:
+            bid, _, ks = a.partition(":")
+            for k in ([int(ks)] if ks else [1, 2, 3, 4]):
+                m = eval_benign(bid, k)
+                print(f"== benign {bid}-{k}: {m.get('status')} tests={m.get('existing_tests_with_patch',{}).get('ok')} alarms={m.get('alarms')} nonzero={m.get('nonzero_exit')} files={m.get('files')}", flush=True)
+                for c, r in m.get("checks", {}).items():
+                    if r["exit"] != 0 or r["notes"]:
+                        print(f"     {c}: exit {r['exit']} {r['notes']} {r['detail'][:500]}", flush=True)
+                out = f"/verif/seeded/benign/{bid}-{k}"
+                os.makedirs(out, exist_ok=True)
+                if os.path.exists(m["patch"]):
+                    shutil.copy(m["patch"], f"{out}/patch.diff")
+                notes = f"{SEEDS}/{bid}/notes.md"
+                if os.path.exists(notes):
+                    shutil.copy(notes, f"{out}/agent-notes.md")
+                json.dump(m, open(f"{out}/meta.json", "w"), indent=1)
+        return 0
     args = sys.argv[2:]
     checks_override = None
     if "--all-checks" in args:
@@ -136,7 +188,7 @@ def main():
     for a in args:
         pid, _, ks = a.partition(":")
         for k in ([int(ks)] if ks else [1, 2, 3]):
-            checks = checks_override or [c for c in RELATED.get(pid, [pid]) if c in claimed]
+            checks = checks_override or [c for c in RELATED.get(pid, claimed if pid.startswith("X") else [pid]) if c in claimed]
             m = eval_seed(pid, k, checks)
             out = f"/verif/seeded/{pid}-{TAG}{k}"
             print(f"== {pid}-{TAG}{k}: {m.get('status')} caught_by={m.get('caught_by')} tests={m.get('existing_tests_with_patch',{}).get('ok')} demo_fails={m.get('demo_with_patch_fails')} demo_pristine={m.get('demo_pristine_passes')}", flush=True)
